@@ -262,8 +262,8 @@ class Cross:
 PROPS = {}
 
 
-def prop(pid, level, rule, assumptions, legs, real_vs_stub, cross=None, streams=None, selftest=False):
-    PROPS[pid] = dict(level=level, rule=rule, assumptions=assumptions, legs=legs, real_vs_stub=real_vs_stub, cross=cross or [], streams=streams or [], selftest=selftest)
+def prop(pid, level, rule, assumptions, legs, real_vs_stub, cross=None, streams=None, selftest=False, miri=False):
+    PROPS[pid] = dict(level=level, rule=rule, assumptions=assumptions, legs=legs, real_vs_stub=real_vs_stub, cross=cross or [], streams=streams or [], selftest=selftest, miri=miri)
 
 
 REAL = "real code: every algorithm, buffer and dispatch path of the crates under /repo, built from the working tree"
@@ -480,6 +480,31 @@ prop(
 )
 
 
+prop(
+    "C18",
+    "exploration",
+    "two layers. (a) one case = one seeded run of the `interleave` world: root instances of all kinds (7 cipher types, block-API states, 19 hash types, 3 Threefish sizes incl. "
+    "with_tweak and shared keys) in one thread, calls interleaved by the seeded scheduler at call granularity on a simulated host; afterwards every instance's own operations are "
+    "replayed alone in a fresh world on a fresh thread and its transcript (per-instance event-log digest) must be identical; an inner check that fails only when interleaved is a violation too. "
+    "(b) one case = one cold process under a controlled scheduler: the thread workload (2-4 threads released by a barrier; each thread's FIRST call is chosen by the workload PRNG, "
+    "biased to the lazily initialised Groestl entry points so that threads race on the same and on different one-time initialisations; then short mixed histories on private instances) runs in a "
+    "fresh Miri interpreter per scheduler seed; Miri's seeded scheduler decides every preemption, its data-race/deadlock detector is on, and every result is compared with the "
+    "sequential one-at-a-time expectation computed natively. distinct_nontrivial = distinct abstract states of layer (a) (kind of instance, history length class, op kind) + underlying scenarios",
+    [
+        "layer (b) runs lazy_static, std::sync::Once, the Groestl AES-NI path (Miri's intrinsic shims) and the algorithm bodies on the PORTABLE ppv-lite86 backend (cfg(miri)); an intra-call race living only in ppv-lite86/src/x86_64 or in std's CPUID cache is not reachable by any controlled scheduler available here",
+        "one Miri scheduler seed = one exactly repeatable interleaving; seeds are sampled, not enumerated",
+        "layer (a) interleaves at call granularity (a single-threaded caller cannot be preempted inside a call)",
+    ],
+    [
+        Leg("std", "release", "interleave", "C18", 30000, 600000, max_ops=60),
+        Leg("std", "checked", "interleave", "C18", 15000, 300000, max_ops=60),
+        Leg("portable", "checked", "interleave", "C18", 0, 150000, max_ops=60),
+    ],
+    [REAL, STUB + "; Miri interprets the real crates (portable SIMD backend)"],
+    miri=True,
+)
+
+
 # ---------------------------------------------------------------------------------------------
 def run_property(pid, tier):
     spec = PROPS[pid]
@@ -602,16 +627,156 @@ def run_property(pid, tier):
             run_streams(pid, spec["streams"], tier, sd, replay_dir, stream_results, violations, known)
         except HarnessError as e:
             harness_error = str(e)
+    miri_results = []
+    miri_total = 0
+    if spec.get("miri") and not harness_error:
+        try:
+            miri_total, miri_wall = run_miri_layer(pid, tier, sd, replay_dir, miri_results, violations, known, others)
+        except HarnessError as e:
+            harness_error = str(e)
     total_runs, total_ops = acc["total_runs"], acc["total_ops"]
     wall = time.time() - t0
     extra = None
     if stream_results:
         extra = dict(streamed_for_real=stream_results)
         total_runs += len(stream_results)
+    if spec.get("miri"):
+        extra = dict(miri_thread_layer=dict(cold_process_runs=miri_total, each_run="a fresh Miri interpreter (cold process: lazy_static tables, std feature cache and every Once uninitialised); 2-4 threads released by a barrier; every preemption decided by Miri's seeded scheduler; data-race and deadlock detection on",
+                                          workloads=miri_results))
+        total_runs += miri_total
     if enumerated:
         extra = dict(enumerated_completely=enumerated, exhaustive=True,
                      exhaustive_scope="placement x start alignment/length residue (3 x 64) for every (operation kind, prefix class, length class, host level) combination; data contents are sampled")
     return finish(pid, tier, sd, spec, wall, total_runs, total_ops, states, counters, notes, samples, legs_out, violations, known, others, harness_error, extra)
+
+
+MIRI_RUSTFLAGS = BASE_RUSTFLAGS + " -C target-feature=+ssse3,+aes"
+
+
+def miri_dirs():
+    tag = "miri" + repo_tag()
+    bdir = os.path.join(VERIF, "build", tag)
+    os.makedirs(os.path.join(bdir, ".cargo"), exist_ok=True)
+    tmpl = open(os.path.join(VERIF, "mirithreads", "Cargo.toml.in")).read()
+    manifest = tmpl.replace("@REPO@", REPO).replace("@MT@", os.path.join(VERIF, "mirithreads"))
+    mpath = os.path.join(bdir, "Cargo.toml")
+    if not os.path.exists(mpath) or open(mpath).read() != manifest:
+        open(mpath, "w").write(manifest)
+    if not os.path.exists(os.path.join(bdir, "Cargo.lock")):
+        shutil.copy(os.path.join(VERIF, "sim", "Cargo.lock.seed"), os.path.join(bdir, "Cargo.lock"))
+    open(os.path.join(bdir, ".cargo", "config.toml"), "w").write("[net]\noffline = true\n")
+    return bdir, mpath, tag
+
+
+def miri_native():
+    """native build of the thread workload: computes the sequential (one-at-a-time) expectations"""
+    bdir, mpath, tag = miri_dirs()
+    env = dict(os.environ)
+    env["RUSTFLAGS"] = BASE_RUSTFLAGS
+    env["CARGO_NET_OFFLINE"] = "true"
+    env["CARGO_TARGET_DIR"] = os.path.join(VERIF, "target", tag + "-native")
+    p = subprocess.run(["cargo", "build", "--offline", "--quiet", "--manifest-path", mpath], env=env, cwd=bdir, stdout=subprocess.PIPE, stderr=subprocess.STDOUT, text=True)
+    if p.returncode != 0:
+        log(p.stdout[-4000:])
+        raise HarnessError("native build of mirithreads failed")
+    return os.path.join(VERIF, "target", tag + "-native", "debug", "mirithreads")
+
+
+def miri_run(workload, threads, steps, seed_lo, seed_hi, rate, expected):
+    """run the workload under Miri for scheduler seeds [seed_lo, seed_hi); returns (rc, output)"""
+    bdir, mpath, tag = miri_dirs()
+    env = dict(os.environ)
+    env["RUSTFLAGS"] = MIRI_RUSTFLAGS
+    env["CARGO_NET_OFFLINE"] = "true"
+    env["CARGO_TARGET_DIR"] = os.path.join(VERIF, "target", tag)
+    if seed_hi - seed_lo == 1:
+        env["MIRIFLAGS"] = "-Zmiri-seed=%d -Zmiri-preemption-rate=%s" % (seed_lo, rate)
+    else:
+        env["MIRIFLAGS"] = "-Zmiri-many-seeds=%d..%d -Zmiri-preemption-rate=%s" % (seed_lo, seed_hi, rate)
+    cmd = ["cargo", "+nightly", "miri", "run", "--offline", "--quiet", "--manifest-path", mpath, "--", "run", str(workload), str(threads), str(steps), expected]
+    p = subprocess.run(cmd, env=env, cwd=bdir, stdout=subprocess.PIPE, stderr=subprocess.STDOUT, text=True)
+    return p.returncode, p.stdout
+
+
+def classify_miri(out):
+    if "Data race detected" in out:
+        return "data race"
+    if "deadlock" in out:
+        return "deadlock"
+    if "MISMATCH" in out:
+        return "result differs from the sequential expectation"
+    if "panicked" in out:
+        return "panic"
+    if "Undefined Behavior" in out:
+        return "undefined behaviour (not a race)"
+    return "abnormal exit"
+
+
+def run_miri_layer(pid, tier, sd, replay_dir, results, violations, known, others):
+    """S7b: threads from a cold process; every thread switch decided by Miri's seeded scheduler."""
+    native = miri_native()
+    if tier == "quick":
+        plan = [(0, 3, 3, 8, "0.1"), (1, 2, 4, 6, "0.3"), (2, 4, 2, 6, "0.05")]
+    else:
+        plan = []
+        for w in range(24):
+            plan.append((w, 2 + w % 3, 2 + (w // 3) % 3, 16, ["0.01", "0.1", "0.4"][w % 3]))
+    t0 = time.time()
+    total = 0
+    for (w, threads, steps, nseeds, rate) in plan:
+        workload = (sd * 1000003 + w) & 0xFFFFFFFF
+        exp = subprocess.run([native, "expected", str(workload), str(threads), str(steps)], stdout=subprocess.PIPE, text=True).stdout.strip()
+        planned = subprocess.run([native, "plan", str(workload), str(threads), str(steps)], stdout=subprocess.PIPE, text=True).stdout.strip().splitlines()
+        lo = (sd * 7919 + w * 101) % 100000
+        rc, out = miri_run(workload, threads, steps, lo, lo + nseeds, rate, exp)
+        total += nseeds
+        rec = dict(workload_seed=workload, threads=threads, steps_per_thread=steps, miri_seeds=[lo, lo + nseeds], preemption_rate=rate, plan=planned, ok=(rc == 0))
+        results.append(rec)
+        log("[%s] miri workload %d: %d threads x %d steps, scheduler seeds %d..%d rate %s: %s" % (pid, workload, threads, steps, lo, lo + nseeds, rate, "ok" if rc == 0 else "FAILED"))
+        if rc == 0:
+            continue
+        # find the failing seed(s) one by one (each is a fresh interpreter = cold process)
+        failing = None
+        for s_ in range(lo, lo + nseeds):
+            rc1, out1 = miri_run(workload, threads, steps, s_, s_ + 1, rate, exp)
+            if rc1 != 0:
+                failing = (s_, out1)
+                break
+        if failing is None:
+            raise HarnessError("Miri failure did not reproduce with a single seed:\n" + out[-2000:])
+        s_, out1 = failing
+        what = classify_miri(out1)
+        # minimise: fewer threads / fewer steps under the same scheduler seed (bounded attempts)
+        best = (threads, steps, exp)
+        for (t2, st2) in [(2, 1), (2, 2), (threads, 1), (2, steps), (threads, 2)]:
+            if t2 > threads or st2 > steps or (t2, st2) == (threads, steps):
+                continue
+            e2 = subprocess.run([native, "expected", str(workload), str(t2), str(st2)], stdout=subprocess.PIPE, text=True).stdout.strip()
+            rc2, out2 = miri_run(workload, t2, st2, s_, s_ + 1, rate, e2)
+            if rc2 != 0 and classify_miri(out2) == what:
+                best = (t2, st2, e2)
+                out1 = out2
+                break
+        props = [pid] if what in ("data race", "deadlock", "result differs from the sequential expectation", "panic") else ["C16"]
+        sig = "threads from a cold process:%s" % what
+        tail = "\n".join(l for l in out1.splitlines() if l.strip())[-1500:]
+        f = dict(kind="miri", workload_seed=workload, threads=best[0], steps=best[1], miri_seed=s_, preemption_rate=rate, expected=best[2],
+                 ops=subprocess.run([native, "plan", str(workload), str(best[0]), str(best[1])], stdout=subprocess.PIPE, text=True).stdout.strip().splitlines(),
+                 minimised_from=threads * steps,
+                 violation=dict(properties=props, invariant="T1", signature=sig, at_op=0, detail="Miri scheduler seed %d, preemption rate %s: %s\n%s" % (s_, rate, what, tail)))
+        path = os.path.join(replay_dir, "%s-miri-%d-%d.json" % (pid, workload, s_))
+        json.dump(f, open(path, "w"))
+        f["replay"] = path
+        if pid not in props:
+            others.append(f)
+            continue
+        kf = open_finding_for(pid, sig)
+        if kf:
+            known.append((kf, f))
+        else:
+            violations.append(f)
+        break  # one reproduced, minimised violation is enough; Miri is slow
+    return total, time.time() - t0
 
 
 def run_streams(pid, streams, tier, sd, replay_dir, results, violations, known):
@@ -791,6 +956,22 @@ def finish(pid, tier, sd, spec, wall, total_runs, total_ops, states, counters, n
 
 def replay(pid, path):
     j = json.load(open(path))
+    if j.get("kind") == "miri":
+        rc, out = miri_run(j["workload_seed"], j["threads"], j["steps"], j["miri_seed"], j["miri_seed"] + 1, j["preemption_rate"], j["expected"])
+        if rc != 0:
+            sig = j["violation"]["signature"]
+            if pid not in j["violation"]["properties"]:
+                print("NOTE: replay fails, but the failure belongs to %s" % j["violation"]["properties"])
+                return 0
+            kf = open_finding_for(pid, sig)
+            if kf:
+                print("KNOWN-FINDING: property=%s %s" % (pid, kf.get("what")))
+                return 0
+            print("VIOLATION property=%s replay=%s" % (pid, path))
+            print("  " + classify_miri(out))
+            return 1
+        print("OK replay: the schedule of Miri seed %d passes on this tree" % j["miri_seed"])
+        return 0
     if j.get("kind") == "stream":
         a = [build("std", "release"), "stream", "--type", j["type"], "--boundary-bytes", str(j["boundary_bytes"]), "--seed", str(j.get("verif_seed", 1))]
         if not j.get("with_reference", True):
